@@ -11,13 +11,26 @@ VERIF = os.path.dirname(HERE)
 REPO = "/repo"
 OWN = "--own" in sys.argv   # fast regression mode: only the check of the change's own property and the checks recorded as catching it
 if OWN: sys.argv.remove("--own")
+LANE = None                 # --lane i/n: this process handles every n-th change (own worktree, own partial result file seeded/.matrix_lane_i.json; merge with --merge)
+if "--lane" in sys.argv:
+    k = sys.argv.index("--lane"); LANE = tuple(int(x) for x in sys.argv[k + 1].split("/")); del sys.argv[k:k + 2]
+MERGE = "--merge" in sys.argv
+if MERGE: sys.argv.remove("--merge")
 names = sys.argv[1:] or sorted(d for d in os.listdir(os.path.join(VERIF, "seeded")) if os.path.exists(os.path.join(VERIF, "seeded", d, "patch.diff")))
-wt = "/tmp/vf_matrix_wt"
-subprocess.run(["git", "-C", REPO, "worktree", "remove", "--force", wt], capture_output=True)
-subprocess.run(["git", "-C", REPO, "worktree", "prune"], capture_output=True)
-subprocess.run(["git", "-C", REPO, "worktree", "add", "--detach", wt, "HEAD"], check=True, capture_output=True)
+wt = "/tmp/vf_matrix_wt" + ("_%d" % LANE[0] if LANE else "")
+if LANE: names = [n for i, n in enumerate(names) if i % LANE[1] == LANE[0]]
+if not MERGE:
+    subprocess.run(["git", "-C", REPO, "worktree", "remove", "--force", wt], capture_output=True)
+    subprocess.run(["git", "-C", REPO, "worktree", "add", "--detach", wt, "HEAD"], check=True, capture_output=True)
 mpath = os.path.join(VERIF, "seeded", "MATRIX.json")
 matrix = json.load(open(mpath)) if os.path.exists(mpath) else {}
+if LANE:
+    mpath = os.path.join(VERIF, "seeded", ".matrix_lane_%d.json" % LANE[0]); matrix = {}
+if MERGE:
+    import glob
+    for f in sorted(glob.glob(os.path.join(VERIF, "seeded", ".matrix_lane_*.json"))):
+        matrix.update(json.load(open(f))); os.remove(f)
+    names = []
 try:
     for n in names:
         patch = os.path.join(VERIF, "seeded", n, "patch.diff")
@@ -43,8 +56,9 @@ try:
         print(n, "caught by", caught, ("ERRORS " + str(errors)) if errors else "", flush=True)
         json.dump(matrix, open(mpath, "w"), indent=1, sort_keys=True)
 finally:
-    subprocess.run(["git", "-C", REPO, "worktree", "remove", "--force", wt], capture_output=True)
-    subprocess.run(["git", "-C", REPO, "worktree", "prune"], capture_output=True)
+    if not MERGE: subprocess.run(["git", "-C", REPO, "worktree", "remove", "--force", wt], capture_output=True)
+if LANE:
+    sys.exit(0)
 # markdown
 rows = ["| seeded change | property | caught by (quick tier, current checks) |", "|---|---|---|"]
 missed = []
